@@ -310,6 +310,7 @@ type Obligation struct {
 	Known    string // matched known finding text, if any
 	Class    string // counterexample class label for known-finding matching
 	Bounded  bool
+	WeakOf   string // name of the obligation this one is the known-class-excluded variant of
 	NoAssume bool // do not turn into an assumption after the check (pure consequences such as frame conditions)
 	queryTxt string
 }
